@@ -11,7 +11,8 @@ pid, m = sys.argv[1], sys.argv[2]
 extra = sys.argv[3:]
 V = os.path.dirname(os.path.dirname(os.path.abspath(__file__)))
 D = "/tmp/seed_%s" % pid
-WT, SR, SB = D + "/wt", "/tmp/seedrepo", "/tmp/seedrepo_b"
+SR = os.environ.get("SEEDREPO", "/tmp/seedrepo")
+WT, SB = D + "/wt", SR + "_b"
 patch = "%s/%s/patch.diff" % (D, m)
 res = {"id": pid, "m": m}
 def sh(cmd, **kw):
